@@ -177,7 +177,9 @@ func check(c Case, r *vh.R) {
 			r.Class("source:first-read-shorter-than-size-field")
 		}
 	}
-	dec, err := enc.NewDecoder(gen.Source(got, c.Src), digest, c.MaxRS)
+	dsrc := gen.Source(got, c.Src)
+	defer gen.Recycle(dsrc)
+	dec, err := enc.NewDecoder(dsrc, digest, c.MaxRS)
 	if uint64(rs) > c.MaxRS && len(got) > 0 {
 		// outside the round-trip property (record size above the caller's limit); C15 covers it
 		r.Class("max-below-rs")
